@@ -101,6 +101,98 @@ def table_rules(ctx, crate, S, which):
                                       "%s:%s" % (i["file"], i["line"]))
 
 
+TERMINATING = {"Return": True, "Break": True, "Yield": False, "Continue": False}   # documented meaning of keyed_stream::Generate
+SHRINK = ("remove", "remove_entry", "retain", "clear", "drain", "extract_if", "take")
+
+
+def terminate_rule(ctx, c):
+    """KeyedStream::generator keeps one `HashMap<K, Option<A>>` entry per key: absent = key not seen yet (`entry().or_insert_with(init)`), `None` = key has terminated.
+    'Per-key results depend only on that key's subsequence' needs (a) no path of the staged closure shrinks the map (a removed entry makes a terminated key start afresh), and
+    (b) the two terminating answers (Return, Break) have the same effect on the key's state while Yield/Continue have none (sibling-arm agreement)."""
+    R = ctx.rule("C29.terminate", "the staged closure of KeyedStream::generator never shrinks its per-key state map, and the Return and Break arms leave the same tombstone", floor=2)
+    bodies = [b for n, b in c.bodies.items() if "keyed_stream::" in n and "::generator::" in n and b.kind != "Promoted"
+              and any((cl.get("f") or {}).get("name") == "entry" and "hash::map" in (cl.get("f") or {}).get("def", "") for _i, cl in b.calls())]
+    if not bodies:
+        ctx.anchor_missing(R, "KeyedStream::generator staged closure (HashMap::entry)")
+        return
+    adt = c.adts.get("hydro_lang::live_collections::keyed_stream::Generate")
+    if adt is None:
+        ctx.anchor_missing(R, "enum Generate")
+        return
+    vnames = [v["name"] for v in adt["variants"]]
+    for b in bodies:
+        key = "hydro_lang|" + fn_key(c, b)
+        # (a) the map is only grown
+        shrink = []
+        for bb, cl in b.calls():
+            f = cl.get("f") or {}
+            if f.get("name") in SHRINK and ("hash::map" in f.get("def", "") or "HashMap" in f.get("impl_self", "")):
+                shrink.append((f.get("name"), bb))
+        ctx.inst(R, key + "|map-only-grows", sites=len(list(b.calls())), sample={"shrinking_calls": shrink})
+        for name, bb in shrink:
+            ctx.violation(R, key + "|state-map-shrinks|" + name, "the per-key state map is shrunk with `%s`: a key that has terminated is forgotten and its next element starts a fresh "
+                          "accumulator (absent entries are initialised by or_insert_with)" % name, b.loc(bb))
+        # (b) sibling arms of the match on Generate
+        sw = None
+        for bb in range(len(b.bbs)):
+            t = b.term(bb)
+            if t["k"] != "switch":
+                continue
+            d = mir.op_place(t["d"])
+            if d is None:
+                continue
+            src = None
+            for st in b.stmts(bb):
+                if "lhs" in st and mir.pl_local(st["lhs"]) == mir.pl_local(d) and st["rv"].get("k") == "discr":
+                    src = mir.pl_local(st["rv"]["p"])
+                    vnames = [n_ for _i, n_ in sorted(st["rv"].get("variants") or enumerate(vnames))]
+            if src is not None and "keyed_stream::Generate<" in b.locals[src]:
+                sw = (bb, t)
+                break
+        if sw is None:
+            ctx.anchor_missing(R, "match on Generate in " + key)
+            continue
+        bb, t = sw
+        arms = {}
+        for v, tgt in t["ts"]:
+            arms[vnames[int(v)]] = tgt
+        reach = {n: b.reachable(tgt) for n, tgt in arms.items()}
+        effects = {}
+        for n, tgt in arms.items():
+            others = set()
+            for m_, r_ in reach.items():
+                if m_ != n:
+                    others |= r_
+            eff = set()
+            for x in sorted(reach[n] - others):
+                if b.is_cleanup(x):
+                    continue
+                tt = b.term(x)
+                if tt["k"] == "call" and tt.get("f"):
+                    f = tt["f"]
+                    slf = f.get("impl_self", "") + f.get("def", "")
+                    if "option::Option" in slf and f.get("name") in ("take", "replace", "insert", "get_or_insert_with", "get_or_insert") or "hash::map" in slf:
+                        eff.add(f.get("name"))
+                for st in b.stmts(x):
+                    if "lhs" in st and "*" in mir.pl_str(st["lhs"]) and "Option" in b.locals[mir.pl_local(st["lhs"])]:
+                        eff.add("assign-through-state-ref")
+            effects[n] = sorted(eff)
+        ctx.inst(R, key + "|arms", sites=len(arms), sample={"state_effect_per_arm": effects})
+        for n in arms:
+            if n not in TERMINATING:
+                ctx.violation(R, key + "|unclassified-variant|" + n, "Generate::%s is not classified as terminating / non-terminating in the checker" % n, b.loc(bb))
+        term = [n for n in arms if TERMINATING.get(n)]
+        for n in term:
+            if not effects[n]:
+                ctx.violation(R, key + "|no-tombstone|" + n, "the Generate::%s arm does not mark the key's state as terminated" % n, b.loc(arms[n]))
+        if len(term) == 2 and effects[term[0]] != effects[term[1]]:
+            ctx.violation(R, key + "|terminating-arms-differ", "the two terminating answers treat the key's state differently (%s: %s, %s: %s): whether later elements of the key are processed depends on "
+                          "how the key terminated" % (term[0], effects[term[0]], term[1], effects[term[1]]), b.loc(bb))
+        for n in arms:
+            if TERMINATING.get(n) is False and effects[n]:
+                ctx.violation(R, key + "|non-terminating-arm-mutates|" + n, "the Generate::%s arm changes the key's state slot (%s)" % (n, effects[n]), b.loc(arms[n]))
+
+
 def run(ctx):
     ctx.explanation = ("The ordering/retry guarantees of Hydro streams are a type-level encoding; this check decides that the encoding is sound with respect to the IR the API builds. "
                        "(1) The marker tables (IsOrdered, IsExactlyOnce, IsBounded, MinOrder, MinRetries, WeakerOrderingThan, WeakerRetryThan, Boundedness::PreserveOrderIfBounded) are evaluated "
@@ -129,6 +221,7 @@ def run(ctx):
             ctx.violation(R, key + "|" + tag + ("|" + extra if extra else ""), "%s [%s] — admitted instantiation: %s" % (A.RULE_TEXT[tag], extra, inst), "%s:%s" % (s.fn["file"], s.fn["line"]),
                           {"instantiation": inst})
     ctx.extra["instantiations_checked"] = total
+    terminate_rule(ctx, c)
 
     if ctx.tier == "thorough":
         # independent cross-check of the solver by the real type checker: compile-fail witnesses with compiling twins
